@@ -8,6 +8,8 @@ use serde_json::{json, Value};
 
 mod ops;
 mod ops_lex;
+mod ops_json;
+mod ops_hooks;
 
 fn main() {
     // silence the default panic message; panics are reported in the answer
